@@ -6,7 +6,7 @@ from .. import common as C
 from .. import poolrun as P
 
 LEVEL = "proof"
-EXTRA = {"quick": 250, "thorough": 5000}
+EXTRA = {"quick": 250, "thorough": 3000}
 
 
 def run_cases(chk, binp, cases, pf_ok, pf):
